@@ -197,6 +197,7 @@ pub fn run_c14(tier: Tier) -> i32 {
         });
         rep.caps.push(json!({"layer": "long-docs", "cap": "sampled boundaries (every 1021st)", "completed": "all 155 periodic documents"}));
     }
+    server_locations_layer(&mut rep, tier);
     rep.distinct_nontrivial = nontrivial.load(Ordering::Relaxed);
     rep.distinct_outcomes = 1 + rep.violations.iter().map(|v| v.class.clone()).collect::<std::collections::BTreeSet<_>>().len() as u64;
     rep.rule = "documents enumerated exhaustively; non-trivial = distinct documents containing both a line break and a multi-byte character".into();
@@ -206,6 +207,206 @@ pub fn run_c14(tier: Tier) -> i32 {
     rep.extra.insert("position_checks".into(), json!(total_checks));
     rep.guard(rep.distinct_nontrivial > 100, "documents with line breaks and multi-byte characters");
     rep.finish()
+}
+
+/// Identifier runs (maximal `[A-Za-z0-9_]+`) of `text` touching byte offset `o`.
+fn names_touching(text: &str, o: usize) -> Vec<String> {
+    let b = text.as_bytes();
+    let isw = |c: u8| c.is_ascii_alphanumeric() || c == b'_';
+    let mut out = vec![];
+    let mut i = 0;
+    while i < b.len() {
+        if isw(b[i]) {
+            let s = i;
+            while i < b.len() && isw(b[i]) {
+                i += 1;
+            }
+            if s <= o && o <= i {
+                out.push(text[s..i].to_string());
+            }
+        } else {
+            i += 1;
+        }
+    }
+    out
+}
+
+const LOC_PREFIXES: &[&str] = &["", "// é\n", "// 😀😀\n\n", "/// €€\n// x\n// y\n"];
+
+/// The two modules of the locations workspace; `inline` puts a string with astral and 2-/3-byte
+/// characters before the identifiers on their lines.
+fn loc_files(pa: &str, pb: &str, inline: bool) -> (String, String) {
+    let (sa, sb) = if inline { ("pub const s = \"😀é€\" ", "let s = \"€😀\" ") } else { ("", "") };
+    let a = format!(
+        "{pa}pub type T {{ K(v: Int) }}\n{sa}pub const c = 1\n{sa}pub fn target(x) {{ x }}\nfn own(k: T) {{ target(c) K(c) k.v }}\n"
+    );
+    let b = format!(
+        "{pb}import a\npub fn use_it() {{ {sb}a.target(a.c) }}\npub fn more(t: a.T) {{ {sb}a.K(1) a.target(2) t.v }}\n"
+    );
+    (a, b)
+}
+
+/// Server-level layer: a two-module package served by the real router; every range of every
+/// location, highlight and rename edit the server sends, for a request at every character
+/// boundary of both documents, must select in the *client's* copy of the addressed document an
+/// identifier spelled like the one under the cursor.
+fn server_locations_layer(rep: &mut Report, tier: Tier) {
+    let base = crate::core::verif_root().join(".scratch/c14");
+    let _ = std::fs::remove_dir_all(&base);
+    let mut cfgs = vec![];
+    for (ia, pa) in LOC_PREFIXES.iter().enumerate() {
+        for (ib, pb) in LOC_PREFIXES.iter().enumerate() {
+            for inline in [false, true] {
+                if tier == Tier::Quick && !(ia == 0 || ib == 0 || ia == ib) {
+                    continue;
+                }
+                cfgs.push((ia, ib, *pa, *pb, inline));
+            }
+        }
+    }
+    let res: Vec<(u64, u64, Vec<Violation>)> = cfgs
+        .par_iter()
+        .map(|(ia, ib, pa, pb, inline)| {
+            let root = base.join(format!("w{ia}{ib}{}", *inline as u8));
+            let (ta, tb) = loc_files(pa, pb, *inline);
+            let _ = std::fs::create_dir_all(root.join("src"));
+            let _ = std::fs::write(root.join("gleam.toml"), "name = \"p\"\n");
+            let _ = std::fs::write(root.join("src/a.gleam"), &ta);
+            let _ = std::fs::write(root.join("src/b.gleam"), &tb);
+            let ua = format!("file://{}", root.join("src/a.gleam").display());
+            let ub = format!("file://{}", root.join("src/b.gleam").display());
+            let docs = [(ua.clone(), RefDoc::new(ta.clone())), (ub.clone(), RefDoc::new(tb.clone()))];
+            let mut srv = InProc::new();
+            let mut viol: Vec<Violation> = vec![];
+            let mut n = 0u64;
+            let mut located = 0u64;
+            let _ = srv.open(&ua, &ta);
+            let _ = srv.open(&ub, &tb);
+            let wit = |kind: &str, uri: &str, pos: (u32, u32)| json!({"prefix_a": pa, "prefix_b": pb, "inline": inline, "request": kind, "document": if uri == ua { "a" } else { "b" }, "position": [pos.0, pos.1]});
+            for (uri, doc) in &docs {
+                for (pos, off) in doc.valid_positions() {
+                    let names = names_touching(&doc.text, off);
+                    if names.is_empty() {
+                        continue;
+                    }
+                    let upper = names.iter().any(|w| w.chars().next().map_or(false, |c| c.is_ascii_uppercase()));
+                    let tdp = json!({"textDocument": {"uri": uri}, "position": {"line": pos.0, "character": pos.1}});
+                    let mut reqs = vec![
+                        ("references", "textDocument/references", { let mut p = tdp.clone(); p["context"] = json!({"includeDeclaration": true}); p }),
+                        ("definition", "textDocument/definition", tdp.clone()),
+                        ("documentHighlight", "textDocument/documentHighlight", tdp.clone()),
+                        ("prepareRename", "textDocument/prepareRename", tdp.clone()),
+                    ];
+                    let mut rn = tdp.clone();
+                    rn["newName"] = json!(if upper { "Zz9" } else { "zz9" });
+                    reqs.push(("rename", "textDocument/rename", rn));
+                    for (kind, method, params) in reqs {
+                        n += 1;
+                        let v = match srv.request(method, params) {
+                            Err(m) => {
+                                viol.push(Violation { class: "query-panic".into(), key: format!("server-locations|{kind}|{}", panic_class(&m)), witness: wit(kind, uri, pos), detail: format!("{kind} at {pos:?} panicked: {}", panic_class(&m)) });
+                                srv = InProc::new();
+                                let _ = srv.open(&ua, &ta);
+                                let _ = srv.open(&ub, &tb);
+                                continue;
+                            }
+                            Ok(Err(_)) => continue,
+                            Ok(Ok(v)) => v,
+                        };
+                        // (uri, range) pairs of the answer
+                        let mut locs: Vec<(String, serde_json::Value)> = vec![];
+                        match kind {
+                            "references" | "definition" => {
+                                let arr = if v.is_array() { v.as_array().cloned().unwrap() } else if v.is_object() { vec![v.clone()] } else { vec![] };
+                                for l in arr {
+                                    let u = l["uri"].as_str().or(l["targetUri"].as_str()).unwrap_or("").to_string();
+                                    let r = if l["range"].is_object() { l["range"].clone() } else { l["targetSelectionRange"].clone() };
+                                    locs.push((u, r));
+                                }
+                            }
+                            "documentHighlight" => {
+                                for h in v.as_array().cloned().unwrap_or_default() {
+                                    locs.push((uri.clone(), h["range"].clone()));
+                                }
+                            }
+                            "prepareRename" => {
+                                if v["start"].is_object() {
+                                    locs.push((uri.clone(), v.clone()));
+                                } else if v["range"].is_object() {
+                                    locs.push((uri.clone(), v["range"].clone()));
+                                }
+                            }
+                            _ => {
+                                if let Some(ch) = v["changes"].as_object() {
+                                    for (u, edits) in ch {
+                                        for e in edits.as_array().cloned().unwrap_or_default() {
+                                            locs.push((u.clone(), e["range"].clone()));
+                                        }
+                                    }
+                                }
+                                for dc in v["documentChanges"].as_array().cloned().unwrap_or_default() {
+                                    let u = dc["textDocument"]["uri"].as_str().unwrap_or("").to_string();
+                                    for e in dc["edits"].as_array().cloned().unwrap_or_default() {
+                                        locs.push((u.clone(), e["range"].clone()));
+                                    }
+                                }
+                            }
+                        }
+                        for (u, r) in locs {
+                            located += 1;
+                            let Some((_, target)) = docs.iter().find(|d| d.0 == u) else {
+                                viol.push(Violation { class: "location-outside-workspace".into(), key: format!("server-locations|{kind}"), witness: wit(kind, uri, pos), detail: format!("{kind} at {pos:?}: location in unknown document {u}") });
+                                continue;
+                            };
+                            let p = |k: &str| (r[k]["line"].as_u64().unwrap_or(u64::MAX) as u32, r[k]["character"].as_u64().unwrap_or(u64::MAX) as u32);
+                            let (s, e) = (p("start"), p("end"));
+                            let sel = match (target.offset_of(s.0, s.1), target.offset_of(e.0, e.1)) {
+                                (Some(so), Some(eo)) if so <= eo => Some(target.text[so..eo].to_string()),
+                                _ => None,
+                            };
+                            // a module is located at the start of its file (empty range at 0:0)
+                            let module_target = kind == "definition" && s == (0, 0) && e == (0, 0) && names.iter().any(|w| w == "a");
+                            // a definition may be located at its whole declaration, which contains its name
+                            let declaration = kind == "definition"
+                                && sel.as_ref().map_or(false, |t| (0..=t.len()).any(|o| names_touching(t, o).iter().any(|w| names.contains(w))));
+                            let ok = module_target || declaration || sel.as_ref().map_or(false, |t| names.contains(t));
+                            if !ok && viol.len() < 8 {
+                                let same = if u == *uri { "same document" } else { "other document" };
+                                viol.push(Violation {
+                                    class: "range-selects-other-text".into(),
+                                    key: format!("server-locations|{kind}|{same}"),
+                                    witness: wit(kind, uri, pos),
+                                    detail: format!("{kind} at {pos:?} on {names:?}: the range {s:?}..{e:?} selects {sel:?} in the client's copy of {}", if u == ua { "a.gleam" } else { "b.gleam" }),
+                                });
+                            }
+                        }
+                    }
+                }
+            }
+            let _ = std::fs::remove_dir_all(&root);
+            (n, located, viol)
+        })
+        .collect();
+    let mut n = 0;
+    let mut located = 0;
+    for (a, b, v) in res {
+        n += a;
+        located += b;
+        for x in v {
+            rep.violation(x);
+        }
+    }
+    rep.guard(located > 1000, "server-locations: ranges received and checked");
+    rep.extra.insert("server_location_ranges_checked".into(), json!(located));
+    rep.layer(Layer {
+        name: "server-locations".into(),
+        states: cfgs.len() as u64,
+        transitions: located,
+        executions: n,
+        exhaustive: true,
+        bound: format!("two-module package (real directory, real router): {} combinations of 4 leading-comment prefixes per module (different line counts, 2-/3-/4-byte characters) x multi-byte string before the identifiers on their lines or not; references / definition / documentHighlight / prepareRename / rename at every character boundary touching an identifier in both documents; every returned range resolved in the client's copy of the addressed document", cfgs.len()),
+        ..Default::default()
+    });
 }
 
 pub fn replay_c14(w: &serde_json::Value) -> Vec<String> {
